@@ -241,14 +241,27 @@ class World:
                                     ceil_threshold=cfg.get("thr", 5 * TPS) / TPS)
         self.eff_total[t] = None if tmo.total is None else round(tmo.total * TPS)
         body = b"x" * 70000 if cfg.get("block") else None
+        in_read = False
+        resp = None
         try:
-            async with self.session.request("POST" if body else "GET", "http://origin.test/p", data=body,
-                                            timeout=tmo) as resp:
+            if cfg.get("plain"):
+                # no context manager: after a failure inside aiohttp the caller does nothing more, so whatever
+                # cleaning up happens is aiohttp's own; a caller cancelled in its own code closes the response
+                resp = await self.session.request("POST" if body else "GET", "http://origin.test/p", data=body, timeout=tmo)
                 self.head_at[t] = self.tick()
                 await self.gate[t].wait()
+                in_read = True
                 self.bodies[t] = await resp.read()
+            else:
+                async with self.session.request("POST" if body else "GET", "http://origin.test/p", data=body,
+                                                timeout=tmo) as resp:
+                    self.head_at[t] = self.tick()
+                    await self.gate[t].wait()
+                    self.bodies[t] = await resp.read()
             self.outcome[t] = ("ok", self.tick())
         except BaseException as e:  # noqa
+            if cfg.get("plain") and resp is not None and not in_read:
+                resp.close()
             self.outcome[t] = (classify(e), self.tick())
             if isinstance(e, asyncio.CancelledError):
                 raise
@@ -606,6 +619,10 @@ class Oracle:
                     P.append(f"the connection of failed request {t} ({kind}) still occupies a pool slot")
             if str(t) in snap["writer_owners"]:
                 P.append(f"the body writer task of failed request {t} ({kind}) is still running")
+        for t, paused_w in w.wpaused.items():
+            tr = w.tr_of.get(t)
+            if paused_w and tr is not None and any(p.transport is tr for dq in c._conns.values() for p, _ in dq):
+                P.append(f"the connection of request {t} is in the pool although its request body was never completely sent")
         if snap["acq"] > len(live):
             P.append(f"{snap['acq']} pool slots occupied by {len(live)} pending requests")
         if snap["wait"] > len(live):
@@ -709,7 +726,8 @@ TIMEOUT_CHOICES = [None, None, 6, 20, 32, 78, 80, 82, 100, 130]
 def gen_cfg(rng):
     thr = rng.choice([80, 80, 80, 32])
     kind = rng.random()
-    cfg = {"total": None, "connect": None, "sock_connect": None, "sock_read": None, "thr": thr, "block": rng.random() < 0.25}
+    cfg = {"total": None, "connect": None, "sock_connect": None, "sock_read": None, "thr": thr, "block": rng.random() < 0.25,
+           "plain": rng.random() < 0.4}
     if kind < 0.15:
         pass
     elif kind < 0.75:
@@ -985,6 +1003,18 @@ CANCEL_BASES = [
         ["data", 1, "big"], ["read", 0], ["data", 1, "end"], ["data", 0, "end"], ["conn", 2], ["data", 2, "head"],
         ["read", 2], ["data", 2, "end"]]},
 ]
+
+
+def _plain_variant(base):
+    """The same exchange with a victim that does not use `async with`."""
+    b = json.loads(json.dumps(base))
+    for st in b["history"]:
+        if st[0] == "start" and st[1] == b["victim"]:
+            st[2]["plain"] = True
+    return b
+
+
+CANCEL_BASES += [_plain_variant(CANCEL_BASES[0]), _plain_variant(CANCEL_BASES[3])]
 
 
 def run_cancel(base, k):
